@@ -52,6 +52,51 @@ STATUS = {
  "C20-m2": "at HEAD the change makes tests/test_worker.py::test_health_check_server fail (the messages_limit fix made the stock test sensitive to it); ./check C20 reports it too",
  "C09-m2": "NOT detected: needs a real thread pool outliving a timeout; on the virtual-time loop executor work runs inline (stated limit of the technique here)",
 }
+
+NEEDS.update({
+ "C01-m3": ("RabbitMQ requeue publishes the new version before acking the old delivery", "an immediate requeue whose new copy is delivered on the same channel before the publisher confirm returns: the delivery-tag table entry is overwritten and the wrong delivery is acked"),
+ "C02-m3": ("RabbitMQ requeue: publish before ack", "RabbitMQ + a retry with zero delay delivered back to the same consumer before basic_publish returns"),
+ "C03-m3": ("graceful finish cancels the wrapper tasks instead of letting them reject", "a stop while an actor is running and the actor outliving the graceful period"),
+ "C04-m3": ("RabbitMQ requeue: publish before ack", "RabbitMQ + a retry with zero/sub-millisecond delay and spare prefetch capacity"),
+ "C05-m3": ("Redis reject() puts the message in front of the normal queue", "Redis + a not-yet-due message returned via reject (DELAYED-category inspection, closing a listing, shutdown after a retry requeue)"),
+ "C06-m3": ("RabbitMQ expiration from timedelta.seconds (days dropped)", "RabbitMQ + distance to the next slot of one day or more"),
+ "C07-m3": ("RabbitMQ consumer: falsy priority falls back to the default", "RabbitMQ + a message of priority 0 (LOW) and looking at the key the consumer hands out"),
+ "C09-m3": ("execution timeout no longer waits for the cancelled actor to really stop", "actor exceeding its timeout that keeps awaiting during cancellation, saturated worker, another message waiting"),
+ "C10-m3": ("messages limit checked before waiting for a free slot (check-then-act)", "two queues with backlog, tasks_limit < messages_limit, fewer remaining executions than waiting consumers"),
+ "C11-m3": ("Redis consumer matches topics by bare prefix", "Redis + two topics in one queue where one name is a proper prefix of the other, served by different consumers"),
+ "C12-m3": ("Redis consumer dead-letters expired messages itself into the default-priority dead queue", "Redis + non-default priority + ttl run out when a NORMAL consumer reaches the message, then reading the dead-letter queue"),
+ "C13-m3": ("eager response stores a stale exception instead of the result set last", "set_exception followed by set_result followed by an eager response in one execution"),
+ "C14-m3": ("in-memory consumer 'recovers' unacked messages when it starts", "a second consumer starting on the queue while the first holds a message in flight"),
+ "C15-m3": ("Redis consumer looks into the normal list before the due-delayed set", "Redis + a returned message carrying a past next_execution_time and a newer message in the normal list"),
+ "C16-m3": ("a failing callback ends the callback chain", "a raising callback followed by a later callback or set_* and an eager response"),
+ "C17-m3": ("Redis consumer starts its polling task lazily from inside consume()", "Redis + before_nack/after_nack subscribers + an expired message met by a NORMAL consumer (the nack then runs in the caller's context)"),
+ "C18-m3": ("variadic dependency parameters of a provider no longer rejected at declaration", "a provider with *args/**kwargs annotated as a dependency"),
+ "C20-m3": ("consumer failure lost when it coincides with the stop request", "consume() raising within a few loop iterations of the stop request while a job is still in flight"),
+ "C01-m4": ("Redis requeue stores the new version and delegates placement to reject()", "Redis + a message consumed through the DEAD category and requeued: ends in the dead set again"),
+ "C02-m4": ("result bucket built before the message is reported to the broker", "result storing on + an exception whose str() raises, or a result request without a bucket broker"),
+ "C03-m4": ("Redis maintenance compares in-flight age with execution_timeout.seconds", "Redis + execution timeout >= 1 day + maintenance later than timeout.seconds after the take"),
+ "C04-m4": ("Redis reject no longer restores the delay of the message", "Redis + a retry scheduled with a delay, taken early through the DELAYED category (or prefetched) and handed back"),
+ "C05-m4": ("recurring schedule handled before delay_until in compute_next_execution_time", "deferred_until combined with deferred_by/cron and the start more than one period away"),
+ "C06-m4": ("period count uses ceil() instead of floor()+1", "completion instant exactly on the period grid"),
+ "C07-m4": ("Job.enqueue stores the argument bucket and publishes the message concurrently", "argument bucket + a consumer already waiting + bucket write landing after the publish"),
+ "C09-m4": ("Redis consumer fetches under the pause lock", "Redis + saturated worker + unpause while the background fetch holds the lock + messages arriving afterwards"),
+ "C10-m4": ("a message taken after the limit was reached is left to consumer.finish()", "RabbitMQ/Redis + two queues + a message available in the second queue when the M-th execution starts"),
+ "C11-m4": ("an overridden actor leaves an empty topic set behind", "actor name registered on Q1 then re-registered on Q2 as Q1's only topic; then any message in Q1"),
+ "C12-m4": ("shared is_expired helper treats a zero ttl as no ttl", "parameters with ttl == timedelta(0) built directly"),
+ "C13-m4": ("runner rejects the message when processing raises (undoes ack/nack on Redis)", "Redis + result storing + store_bucket failing + execution ending in ack or nack"),
+ "C14-m4": ("Redis maintenance compares unix seconds with execution_timeout.seconds", "timeout >= 1 day, message in processing longer than timeout.seconds, a maintenance run in that window"),
+ "C15-m4": ("in-memory consumer stops scanning at the first matching message", "one in-memory queue with two topics served by different consumers and a foreign-topic message ahead"),
+ "C16-m4": ("the eager-response signal becomes an ordinary Exception", "an actor wrapping the eager call in try/except Exception"),
+ "C17-m4": ("Repid(..., middlewares=[...]) de-duplicates middlewares process-wide", "two Connections in one process given the same middleware object"),
+ "C18-m4": ("top-level providers gathered with return_exceptions, only Exception instances re-raised", "a provider responding eagerly through the message API, or a provider returning an Exception instance as its value"),
+ "C20-m4": ("health-check server not started again after it was stopped once", "run() on the same Worker a second time"),
+})
+STATUS.update({
+ "C09-m1": "patch rebased by hand onto the runner fixes (a29ac05 and the hand-back fix); same idea: semaphore replaced by Event + len(tasks)",
+ "C10-m3": "patch rebased by hand onto the hand-back fix; same idea: limit checked before the slot wait, nothing re-checked after it",
+ "C10-m4": "patch rebased by hand onto the hand-back fix; same idea: the explicit reject of the message taken after the limit is dropped",
+})
+ROUND2_BASE = "587164b"
 for sid in sorted(os.listdir("/verif/seeded")):
     d = f"/verif/seeded/{sid}"
     if not os.path.isdir(d):
@@ -61,14 +106,16 @@ for sid in sorted(os.listdir("/verif/seeded")):
     det = rd("detect.txt") or ""
     meta = {
         "id": sid, "property": sid.split("-")[0],
-        "written_by": "independent sub-agent given only the property text and a scratch worktree (original tree 2f5494e)",
+        "written_by": "independent sub-agent given only the property text and a scratch worktree " + ("(original tree 2f5494e)" if sid[-1] in "12" else f"(tree {ROUND2_BASE}, i.e. after the first batch of fix: commits)"),
         "change": NEEDS.get(sid, ("", ""))[0], "needs_to_manifest": NEEDS.get(sid, ("", ""))[1],
         "files": files,
         "verified_on_original_tree": rd("VERIFY.txt"),
         "verified_on_head": rd("verify_head.txt"),
-        "what_i_ran": ["tools/verify_seed.sh (scratch worktree at 2f5494e: demo without change, git apply, demo with change, full suite in a private network namespace)",
+        "what_i_ran": (["verified in the agent's scratch worktree at 587164b by me: demo passes without the change and fails with it, full suite 194 passed with the change (private network namespace)",
+                       "tools/verify_seeded_head.sh (the same against /repo HEAD with the patch as stored)",
+                       "tools/seed_matrix.sh (git -C /repo apply; ./check <property> --tier quick; git -C /repo checkout -- .)"] if sid[-1] in "34" else ["tools/verify_seed.sh (scratch worktree at 2f5494e: demo without change, git apply, demo with change, full suite in a private network namespace)",
                        "tools/verify_seeded_head.sh (same against /repo HEAD with the rebased patch)",
-                       "tools/seed_matrix.sh (git -C /repo apply; ./check <property> --tier quick; git -C /repo checkout -- .)"],
+                       "tools/seed_matrix.sh (git -C /repo apply; ./check <property> --tier quick; git -C /repo checkout -- .)"]),
         "check_result": det,
         "detected": " exit=1 " in (" " + det + " "),
         "note": STATUS.get(sid),
